@@ -1037,7 +1037,10 @@ def cases_for(prop, tier, seed):
     g = Gen(seed, stream=int(prop[1:]))
     k = 10 if thorough else 1
     if prop == "C19":
-        return CORPUS.get(prop, []) + [case(nocfg_adef(g), pick_syntax(g, (3, 3, 2, 2)), "nocfg") for _ in range(90 * k)]
+        f14 = case({"config": {"register_address_type": "u8"}, "objects": [
+            {"kind": "block", "name": "Dev", "address_offset": "1", "objects": [
+                {"kind": "register", "name": "R", "address": "1", "size_bits": 8, "fields": []}]}]}, "dsl", "nocfg")
+        return CORPUS.get(prop, []) + [f14] + [case(nocfg_adef(g), pick_syntax(g, (3, 3, 2, 2)), "nocfg") for _ in range(90 * k)]
     return _cases_for_base5(prop, tier, seed)
 
 
